@@ -2,8 +2,12 @@
 """regenerate /verif/MANIFEST.json from tools/props.py (claimed checks) and properties.jsonl"""
 import json, os, sys, subprocess
 VERIF = os.path.dirname(os.path.dirname(os.path.abspath(__file__)))
-sys.path.insert(0, os.path.join(VERIF, "tools"))
-import props as P
+import glob
+class P: pass
+P.PROPS = {os.path.basename(f)[:-5]: json.load(open(f)) for f in glob.glob(os.path.join(VERIF, "checks", "C*.json"))}
+_c = json.load(open(os.path.join(VERIF, "checks", "_common.json")))
+P.HOOKS_ADD_ONLY = _c.get("hooks_add_only", True)
+P.NOT_APPLICABLE = _c.get("not_applicable", {})
 ids = [json.loads(l)["id"] for l in open(os.path.join(VERIF, "properties.jsonl"))]
 hooks = subprocess.run(["git", "-C", "/repo", "log", "--format=%H %s"], capture_output=True, text=True).stdout.splitlines()
 hook_commits = [l.split()[0] for l in hooks if l.split(" ", 1)[1].startswith("verif hook")]
@@ -38,12 +42,23 @@ m = {
     "engines": [
         {"name": "lean4", "path": "/verif/lean", "serves_properties": [c["property_id"] for c in checks],
          "kind_free_text": "Lake project Varpulis: Model/ (executable models), Lemmas/, Props/<id>.lean (property theorems), Driver/ + Main.lean (vmodel line-protocol driver, compiled)"},
-        {"name": "vh-core", "path": "/verif/harness/vh-core", "serves_properties": [pid for pid in ids if P.PROPS.get(pid, {}).get("harness") == "vh-core"],
-         "kind_free_text": "Rust correspondence harness calling varpulis-zdd/core/parser/runtime in-process"},
+    ] + [
+        {"name": h, "path": "/verif/harness/" + h, "serves_properties": [pid for pid in ids if P.PROPS.get(pid, {}).get("harness") == h],
+         "kind_free_text": "Rust correspondence harness calling the /repo crates in-process (path dependencies, feature varpulis_verif)"}
+        for h in sorted({c["harness"] for c in P.PROPS.values()})
     ],
     "checks": checks,
     "notes": "bin/check <id>: exit 0 held, 1 VIOLATION (replay file), 2 infrastructure error. Known findings: known_findings.json.",
     "not_applicable": na,
 }
 json.dump(m, open(os.path.join(VERIF, "MANIFEST.json"), "w"), indent=1)
+# known_findings.json = the union of the per-property findings lists (committed; never written at run time)
+kf = []
+for pid in ids:
+    for f in P.PROPS.get(pid, {}).get("findings", []):
+        e = dict(f); e["property"] = pid
+        if e.get("kind") == "fixed":
+            e["what"] = "fixed: property=%s %s %s" % (pid, e.get("commit", "?"), e["what"]) if not e["what"].startswith("fixed:") else e["what"]
+        kf.append(e)
+json.dump(kf, open(os.path.join(VERIF, "known_findings.json"), "w"), indent=1)
 print("claimed", len(checks), "unclaimed", len(na))
